@@ -91,59 +91,59 @@ def newHdr (id name : Nat) (ety : ETy) (parent : Nat) : Hdr :=
 def Model.lookup (m : Model) (p : Bytes) : Option Nat := idxGet m.index p
 
 /-- `create_sub_element[_at]` -/
-def opCreate (w : World) (p name : Nat) (pos? : Option Nat) : World × String :=
+def opCreate (w : World) (p name : Nat) (pos? : Option Nat) : World × Ans :=
   match locate w p with
-  | none => (w, "err")
+  | none => (w, .err)
   | some (k, c) =>
     let m := w.models[k]!
     let (h, kids) := lastOf c
     match minVersion V m c with
-    | none => (w, "err")
+    | none => (w, .err)
     | some ver =>
       match insertRange S h kids name ver with
-      | none => (w, "err")
+      | none => (w, .err)
       | some (lo, hi) =>
         let pos := pos?.getD hi
-        if ¬ (lo ≤ pos ∧ pos ≤ hi) then (w, "err")
+        if ¬ (lo ≤ pos ∧ pos ≤ hi) then (w, .err)
         else match S.findSub h.ety.typ name ver with
-          | none => (w, "err")
+          | none => (w, .err)
           | some (ety, _) =>
-            if S.isNamedIn ety.typ ver then (w, "err")
+            if S.isNamedIn ety.typ ver then (w, .err)
             else
               let nh := newHdr w.nextId name ety p
               let root' := m.rootItems.modify p fun h0 k0 => (h0, k0.insertAt (fun r => .elem nh .nil r) pos)
-              ({ setModel w k (m.setRoot root') with nextId := w.nextId + 1 }, s!"ok e{w.nextId}")
+              ({ setModel w k (m.setRoot root') with nextId := w.nextId + 1 }, .ok s!"e{w.nextId}")
 
 /-- `create_named_sub_element[_at]` -/
-def opNamed (w : World) (p name : Nat) (item : Bytes) (pos? : Option Nat) : World × String :=
+def opNamed (w : World) (p name : Nat) (item : Bytes) (pos? : Option Nat) : World × Ans :=
   match locate w p with
-  | none => (w, "err")
+  | none => (w, .err)
   | some (k, c) =>
     let m := w.models[k]!
     let (h, kids) := lastOf c
     match minVersion V m c with
-    | none => (w, "err")
+    | none => (w, .err)
     | some ver =>
       match insertRange S h kids name ver with
-      | none => (w, "err")
+      | none => (w, .err)
       | some (lo, hi) =>
         let pos := pos?.getD hi
-        if ¬ (lo ≤ pos ∧ pos ≤ hi) then (w, "err")
-        else if item.isEmpty then (w, "err")
+        if ¬ (lo ≤ pos ∧ pos ≤ hi) then (w, .err)
+        else if item.isEmpty then (w, .err)
         else match S.findSub h.ety.typ name ver with
-          | none => (w, "err")
+          | none => (w, .err)
           | some (ety, _) =>
-            if ¬ S.isNamedIn ety.typ ver then (w, "err")
+            if ¬ S.isNamedIn ety.typ ver then (w, .err)
             else
               let nameOk : Bool := match S.findSub ety.typ S.nmShortName ver with
                 | some (sty, _) => match S.chardataSpec sty.typ with
                   | some sp => checkValue V (.str item) sp ver
                   | none => false
                 | none => false
-              if !nameOk then (w, "err")
+              if !nameOk then (w, .err)
               else
                 let path := pathOfChain S c ++ [47] ++ item
-                if (m.lookup path).isSome then (w, "err")
+                if (m.lookup path).isSome then (w, .err)
                 else
                   let eid := w.nextId
                   let sid := w.nextId + 1
@@ -156,7 +156,7 @@ def opNamed (w : World) (p name : Nat) (item : Bytes) (pos? : Option Nat) : Worl
                   let nh := newHdr eid name ety p
                   let root' := m.rootItems.modify p fun h0 k0 => (h0, k0.insertAt (fun r => .elem nh snKid r) pos)
                   let m' := { m.setRoot root' with index := idxInsert m.index path eid }
-                  ({ setModel w k m' with nextId := w.nextId + 2 }, s!"ok e{eid} e{sid}")
+                  ({ setModel w k m' with nextId := w.nextId + 2 }, .ok s!"e{eid} e{sid}")
 
 /-- `remove_internal`: un-register everything below a node; returns (index, refs, removed ids) -/
 def removeInternal (fuel : Nat) (h : Hdr) (kids : Items) (path : Bytes) (idx : List (Bytes × Nat))
@@ -185,21 +185,21 @@ def Items.size : Items → Nat
   | .text _ r => r.size + 1
 
 /-- `remove_sub_element` -/
-def opRemove (w : World) (p cid : Nat) : World × String :=
+def opRemove (w : World) (p cid : Nat) : World × Ans :=
   match locate w p with
-  | none => (w, "err")
+  | none => (w, .err)
   | some (k, c) =>
     let m := w.models[k]!
     let (h, kids) := lastOf c
     match kids.childPos cid 0, kids.child cid with
     | some pos, some (ch, ck) =>
-      if S.isNamed h.ety.typ ∧ ch.name = S.nmShortName then (w, "err")
+      if S.isNamed h.ety.typ ∧ ch.name = S.nmShortName then (w, .err)
       else
         let (idx', rs', deadHdrs) := removeInternal S (ck.size + 2) ch ck (pathOfChain S c) m.index m.refs
         let root' := m.rootItems.modify p fun h0 k0 => (h0, k0.removeAt pos)
         let m' := { m.setRoot root' with index := idx', refs := rs' }
-        ({ setModel w k m' with dead := w.dead ++ deadHdrs }, "ok")
-    | _, _ => (w, "err")
+        ({ setModel w k m' with dead := w.dead ++ deadHdrs }, .ok "")
+    | _, _ => (w, .err)
 
 /-- overwrite the text of the reference elements `ids` (their single content item) -/
 def setRefTexts (root : Items) (ids : List Nat) (txt : Bytes) : Items :=
@@ -227,24 +227,24 @@ def renameRefs (rs : List (Bytes × List Nat)) (root : Items) (oldPath newPath :
     | none => acc) (rs, root)
 
 /-- `set_item_name` -/
-def opRename (w : World) (x : Nat) (newName : Bytes) : World × String :=
-  if newName.isEmpty then (w, "err")
+def opRename (w : World) (x : Nat) (newName : Bytes) : World × Ans :=
+  if newName.isEmpty then (w, .err)
   else match locate w x with
-  | none => (w, "err")
+  | none => (w, .err)
   | some (k, c) =>
     let m := w.models[k]!
     let (h, kids) := lastOf c
     match minVersion V m c with
-    | none => (w, "err")
+    | none => (w, .err)
     | some ver =>
       match itemName S h kids with
-      | none => (w, "err")
+      | none => (w, .err)
       | some cur =>
-        if cur = newName then (w, "ok")
+        if cur = newName then (w, .ok "")
         else
           let oldPath := pathOfChain S c
           let newPath := oldPath.take (oldPath.length - cur.length) ++ newName
-          if (m.lookup newPath).isSome then (w, "err")
+          if (m.lookup newPath).isSome then (w, .err)
           else match kids with
             | .elem sh _ _ =>
               if sh.name = S.nmShortName then
@@ -253,14 +253,14 @@ def opRename (w : World) (x : Nat) (newName : Bytes) : World × String :=
                   match S.chardataSpec sh.ety.typ with
                   | some sp => checkValue V (.str newName) sp ver
                   | none => false
-                if ¬ okv then (w, "err")
+                if ¬ okv then (w, .err)
                 else
                   let root1 := m.rootItems.modify sh.id fun h0 _ => (h0, .text (.str newName) .nil)
                   let idx' := idxFix m.index oldPath newPath
                   let (rs', root2) := renameRefs m.refs root1 oldPath newPath
-                  (setModel w k { m.setRoot root2 with index := idx', refs := rs' }, "ok")
-              else (w, "ok")
-            | _ => (w, "ok")
+                  (setModel w k { m.setRoot root2 with index := idx', refs := rs' }, .ok "")
+              else (w, .ok "")
+            | _ => (w, .ok "")
 
 /-- header of a live or removed element -/
 def hdrOf (w : World) (x : Nat) : Option (Hdr × Items) :=
@@ -269,20 +269,20 @@ def hdrOf (w : World) (x : Nat) : Option (Hdr × Items) :=
   | none => (w.dead.find? (·.id == x)).map fun h => (h, .nil)
 
 /-- `Element::set_character_data` -/
-def opCData (w : World) (x : Nat) (v : CDv) : World × String :=
+def opCData (w : World) (x : Nat) (v : CDv) : World × Ans :=
   match hdrOf w x with
-  | none => (w, "err")
+  | none => (w, .err)
   | some (h, kids) =>
-    if ¬ (S.mode h.ety.typ = .characters ∨ S.mode h.ety.typ = .mixed) then (w, "err")
+    if ¬ (S.mode h.ety.typ = .characters ∨ S.mode h.ety.typ = .mixed) then (w, .err)
     else match S.chardataSpec h.ety.typ with
-    | none => (w, "err")
+    | none => (w, .err)
     | some sp =>
       match locate w x with
-      | none => (w, "err")
+      | none => (w, .err)
       | some (k, c) =>
         let m := w.models[k]!
         match minVersion V m c with
-        | none => (w, "err")
+        | none => (w, .err)
         | some ver =>
           let isText := match sp with | .pattern _ _ => true | .string _ _ => true | _ => false
           let v' : Option CDv :=
@@ -293,7 +293,7 @@ def opCData (w : World) (x : Nat) (v : CDv) : World × String :=
               | none => none
             else none
           match v' with
-          | none => (w, "err")
+          | none => (w, .err)
           | some val =>
             -- SHORT-NAME: duplicate check and previous path
             let parentChain := c.dropLast
@@ -314,7 +314,7 @@ def opCData (w : World) (x : Nat) (v : CDv) : World × String :=
                 | _, _ => .ok none
               else .ok none
             match prev with
-            | .error _ => (w, "err")
+            | .error _ => (w, .err)
             | .ok prevPath =>
               let oldRef := if S.isRef h.ety.typ then (charData S h kids).bind cdStr else none
               let root1 := m.rootItems.modify x fun h0 _ => (h0, .text val .nil)
@@ -331,27 +331,27 @@ def opCData (w : World) (x : Nat) (v : CDv) : World × String :=
                     | none => refsAdd m.refs r x
                   | _ => m.refs
                 else m.refs
-              (setModel w k { m.setRoot root1 with index := idx', refs := rs' }, "ok")
+              (setModel w k { m.setRoot root1 with index := idx', refs := rs' }, .ok "")
 
 /-- `remove_character_data` -/
-def opRmCData (w : World) (x : Nat) : World × String :=
+def opRmCData (w : World) (x : Nat) : World × Ans :=
   match hdrOf w x with
-  | none => (w, "err")
+  | none => (w, .err)
   | some (h, kids) =>
-    if S.mode h.ety.typ ≠ .characters then (w, "err")
-    else if h.name = S.nmShortName then (w, "err")
+    if S.mode h.ety.typ ≠ .characters then (w, .err)
+    else if h.name = S.nmShortName then (w, .err)
     else match charData S h kids with
-      | none => (w, "ok")
+      | none => (w, .ok "")
       | some cd =>
         match locate w x with
-        | none => (w, "ok")
+        | none => (w, .ok "")
         | some (k, _) =>
           let m := w.models[k]!
           let rs' := if S.isRef h.ety.typ then
               match cd with | .str r => refsRemove m.refs r x | _ => m.refs
             else m.refs
           let root1 := m.rootItems.modify x fun h0 _ => (h0, .nil)
-          (setModel w k { m.setRoot root1 with refs := rs' }, "ok")
+          (setModel w k { m.setRoot root1 with refs := rs' }, .ok "")
 
 /-- `set_attribute_internal` on a header -/
 def setAttrHdr (h : Hdr) (a : Nat) (v : CDv) (ver : Nat) : Option Hdr :=
@@ -364,18 +364,18 @@ def setAttrHdr (h : Hdr) (a : Nat) (v : CDv) (ver : Nat) : Option Hdr :=
     else some { h with attrs := h.attrs ++ [(a, v)] }
 
 /-- `set_attribute` -/
-def opAttr (w : World) (x a : Nat) (v : CDv) : World × String :=
+def opAttr (w : World) (x a : Nat) (v : CDv) : World × Ans :=
   match locate w x with
-  | none => (w, "err")
+  | none => (w, .err)
   | some (k, c) =>
     let m := w.models[k]!
     let (h, _) := lastOf c
     match minVersion V m c with
-    | none => (w, "err")
+    | none => (w, .err)
     | some ver =>
       match setAttrHdr S V h a v ver with
-      | none => (w, "err")
-      | some h' => (setModel w k (m.setRoot (m.rootItems.modify x fun _ k0 => (h', k0))), "ok")
+      | none => (w, .err)
+      | some h' => (setModel w k (m.setRoot (m.rootItems.modify x fun _ k0 => (h', k0))), .ok "")
 
 /-- `CharacterData::parse` -/
 def parseValue (s : Bytes) (sp : CSpec) (ver : Nat) : Option CDv :=
@@ -389,73 +389,73 @@ def parseValue (s : Bytes) (sp : CSpec) (ver : Nat) : Option CDv :=
   | .float => (CData.parseF64 s).map .float
 
 /-- `set_attribute_string` -/
-def opAttrS (w : World) (x a : Nat) (s : Bytes) : World × String :=
+def opAttrS (w : World) (x a : Nat) (s : Bytes) : World × Ans :=
   match locate w x with
-  | none => (w, "err")
+  | none => (w, .err)
   | some (k, c) =>
     let m := w.models[k]!
     let (h, _) := lastOf c
     match minVersion V m c with
-    | none => (w, "err")
+    | none => (w, .err)
     | some ver =>
       match S.findAttr h.ety.typ a with
-      | none => (w, "err")
+      | none => (w, .err)
       | some (cd, _, mask) =>
-        if (mask &&& ver) = 0 then (w, "err")
+        if (mask &&& ver) = 0 then (w, .err)
         else match parseValue V s (S.cspec cd) ver with
-          | none => (w, "err")
+          | none => (w, .err)
           | some v =>
             let h' := if h.attrs.any (·.1 == a) then { h with attrs := h.attrs.map fun e => if e.1 == a then (a, v) else e }
               else { h with attrs := h.attrs ++ [(a, v)] }
-            (setModel w k (m.setRoot (m.rootItems.modify x fun _ k0 => (h', k0))), "ok")
+            (setModel w k (m.setRoot (m.rootItems.modify x fun _ k0 => (h', k0))), .ok "")
 
 /-- `remove_attribute` -/
-def opRmAttr (w : World) (x a : Nat) : World × String :=
+def opRmAttr (w : World) (x a : Nat) : World × Ans :=
   match locate w x with
   | none =>
     -- removed elements keep their attributes; the call works on them too
-    (w, "ok false")
+    (w, .ok "false")
   | some (k, c) =>
     let m := w.models[k]!
     let (h, _) := lastOf c
     if h.attrs.any (·.1 == a) then
       match S.findAttr h.ety.typ a with
       | some (_, req, _) =>
-        if req then (w, "ok false")
+        if req then (w, .ok "false")
         else
           let h' := { h with attrs := h.attrs.filter (·.1 != a) }
-          (setModel w k (m.setRoot (m.rootItems.modify x fun _ k0 => (h', k0))), "ok true")
-      | none => (w, "ok false")
-    else (w, "ok false")
+          (setModel w k (m.setRoot (m.rootItems.modify x fun _ k0 => (h', k0))), .ok "true")
+      | none => (w, .ok "false")
+    else (w, .ok "false")
 
 /-- `set_reference_target` -/
-def opSetRef (w : World) (x t : Nat) : World × String :=
+def opSetRef (w : World) (x t : Nat) : World × Ans :=
   match hdrOf w x with
-  | none => (w, "err")
+  | none => (w, .err)
   | some (h, kids) =>
-    if ¬ S.isRef h.ety.typ then (w, "err")
+    if ¬ S.isRef h.ety.typ then (w, .err)
     else match locate w t with
-    | none => (w, "err")
+    | none => (w, .err)
     | some (_, tc) =>
       let (th, tk) := lastOf tc
-      if ¬ isIdentifiable S th tk then (w, "err")
+      if ¬ isIdentifiable S th tk then (w, .err)
       else
         let newRef := pathOfChain S tc
         let item := match V.enumOf (V.elemText th.name) with
           | some i => some i
           | none => S.refDestValue h.ety.typ th.ety.typ
         match item with
-        | none => (w, "err")
+        | none => (w, .err)
         | some it =>
           match locate w x with
-          | none => (w, "err")
+          | none => (w, .err)
           | some (k, c) =>
             let m := w.models[k]!
             match minVersion V m c with
-            | none => (w, "err")
+            | none => (w, .err)
             | some ver =>
               match setAttrHdr S V h V.nmDest (.enum it) ver with
-              | none => (w, "err")
+              | none => (w, .err)
               | some h' =>
                 let rs' := match charData S h kids with
                   | some (.str o) => refsFix m.refs o newRef x
@@ -470,10 +470,10 @@ def opSetRef (w : World) (x t : Nat) : World × String :=
                     | .nil => .text (.str newRef) .nil
                     | .elem _ _ r => .text (.str newRef) r
                     | .text _ r => .text (.str newRef) r
-                  (setModel w k { m.setRoot (m.rootItems.modify x fun _ _ => (h', kids')) with refs := rs' }, "ok")
+                  (setModel w k { m.setRoot (m.rootItems.modify x fun _ _ => (h', kids')) with refs := rs' }, .ok "")
                 else
                   -- the Rust code has already set DEST and updated the reverse map when this fails
-                  (setModel w k { m.setRoot (m.rootItems.modify x fun _ k0 => (h', k0)) with refs := rs' }, "err")
+                  (setModel w k { m.setRoot (m.rootItems.modify x fun _ k0 => (h', k0)) with refs := rs' }, .err)
 
 /-- `set_comment`: "--" is replaced by "__" (left to right, non-overlapping) -/
 def fixComment : Bytes → Bytes
@@ -481,23 +481,23 @@ def fixComment : Bytes → Bytes
   | c :: r => c :: fixComment r
   | [] => []
 
-def opComment (w : World) (x : Nat) (cm : Option Bytes) : World × String :=
+def opComment (w : World) (x : Nat) (cm : Option Bytes) : World × Ans :=
   match locate w x with
-  | none => (w, "ok")
+  | none => (w, .ok "")
   | some (k, _) =>
     let m := w.models[k]!
-    (setModel w k (m.setRoot (m.rootItems.modify x fun h0 k0 => ({ h0 with comment := cm.map fixComment }, k0))), "ok")
+    (setModel w k (m.setRoot (m.rootItems.modify x fun h0 k0 => ({ h0 with comment := cm.map fixComment }, k0))), .ok "")
 
 /-- `insert_character_content_item` -/
-def opInsText (w : World) (x pos : Nat) (s : Bytes) : World × String :=
+def opInsText (w : World) (x pos : Nat) (s : Bytes) : World × Ans :=
   match locate w x with
-  | none => (w, "err")
+  | none => (w, .err)
   | some (k, c) =>
     let m := w.models[k]!
     let (h, kids) := lastOf c
-    if S.mode h.ety.typ ≠ .mixed then (w, "err")
-    else if pos > kids.length then (w, "err")
-    else (setModel w k (m.setRoot (m.rootItems.modify x fun h0 k0 => (h0, k0.insertAt (fun r => .text (.str s) r) pos))), "ok")
+    if S.mode h.ety.typ ≠ .mixed then (w, .err)
+    else if pos > kids.length then (w, .err)
+    else (setModel w k (m.setRoot (m.rootItems.modify x fun h0 k0 => (h0, k0.insertAt (fun r => .text (.str s) r) pos))), .ok "")
 
 def isTextAt : Items → Nat → Bool
   | .text _ _, 0 => true
@@ -507,16 +507,16 @@ def isTextAt : Items → Nat → Bool
   | .elem _ _ r, q + 1 => isTextAt r q
 
 /-- `remove_character_content_item` -/
-def opRmText (w : World) (x pos : Nat) : World × String :=
+def opRmText (w : World) (x pos : Nat) : World × Ans :=
   match locate w x with
-  | none => (w, "err")
+  | none => (w, .err)
   | some (k, c) =>
     let m := w.models[k]!
     let (h, kids) := lastOf c
-    if S.mode h.ety.typ ≠ .mixed then (w, "err")
+    if S.mode h.ety.typ ≠ .mixed then (w, .err)
     else if isTextAt kids pos then
-      (setModel w k (m.setRoot (m.rootItems.modify x fun h0 k0 => (h0, k0.removeAt pos))), "ok")
-    else (w, "err")
+      (setModel w k (m.setRoot (m.rootItems.modify x fun h0 k0 => (h0, k0.removeAt pos))), .ok "")
+    else (w, .err)
 
 end
 end AV.W
